@@ -25,10 +25,19 @@ package client
 //@ func noti
 //@   props C01 C12 C19
 //@   requires AllTVWf()
+//@   modifies ghost lastJSONErr
 //@   ensures [delete C01] u == nil ==> res1 == nil && isa(res0.(client.Delete)) && view(res0.(client.Delete).Path) == view(prefix) ++ idxpath(pp, false) && res0.(client.Delete).TS == ts
 //@   ensures [update C01] u != nil && u.Val != nil && res1 == nil ==> isa(res0.(client.Update)) && view(res0.(client.Update).Path) == view(prefix) ++ idxpath(pp, false)
 //@     && res0.(client.Update).TS == ts && res0.(client.Update).Dups == u.Duplicates
 //@   ensures [path-not-shared C01] u == nil ==> fresh(res0.(client.Delete).Path)
+//@   ensures [string-value-delivered C01 C19] u != nil && u.Val != nil && isa(u.Val.Value.(*gpb.TypedValue_StringVal)) ==> res1 == nil && res0.(client.Update).Val == box(u.Val.Value.(*gpb.TypedValue_StringVal).StringVal)
+//@   ensures [int-value-delivered C01 C19] u != nil && u.Val != nil && isa(u.Val.Value.(*gpb.TypedValue_IntVal)) ==> res1 == nil && res0.(client.Update).Val == box(u.Val.Value.(*gpb.TypedValue_IntVal).IntVal)
+//@   ensures [uint-value-delivered C01 C19] u != nil && u.Val != nil && isa(u.Val.Value.(*gpb.TypedValue_UintVal)) ==> res1 == nil && res0.(client.Update).Val == box(u.Val.Value.(*gpb.TypedValue_UintVal).UintVal)
+//@   ensures [bool-value-delivered C01 C19] u != nil && u.Val != nil && isa(u.Val.Value.(*gpb.TypedValue_BoolVal)) ==> res1 == nil && res0.(client.Update).Val == box(u.Val.Value.(*gpb.TypedValue_BoolVal).BoolVal)
+//@   ensures [undecodable-value-refused C01] u != nil && u.Val != nil && res1 != nil ==> res0 == nil
+//@   ensures [legacy-json-value-accepted-iff-it-parses C01] u != nil && u.Val == nil && u.Value != nil && (u.Value.Type == 0 || u.Value.Type == 4) ==> (res1 == nil <==> lastJSONErr == nil)
+//@   ensures [legacy-bytes-value-delivered-as-is C01] u != nil && u.Val == nil && u.Value != nil && u.Value.Type == 1 ==> res1 == nil && isa(res0.(client.Update))
+//@   ensures [no-value-no-notification C01] u != nil && u.Val == nil && u.Value == nil ==> res0 == nil && res1 == nil
 //@   ensures [never-a-synthetic-notification C18] !isa(res0.(client.Connected))
 
 // The first message of a stream is preceded by Connected, once; every update and
@@ -36,10 +45,17 @@ package client
 //@ func (*Client).defaultRecv
 //@   props C18 C01 C12
 //@   requires c != nil && c.handler != nil && AllTVWf() && (isa(msg.(*gpb.SubscribeResponse)) ==> RespWf(msg.(*gpb.SubscribeResponse)))
-//@   modifies ghost delivered, ghost connectedSent, c.connected
+//@   modifies ghost delivered, ghost connectedSent, c.connected, ghost lastJSONErr
 //@   invariant 0: c.connected && connectedSent == old(connectedSent) + ite(old(c.connected), 0, 1) && delivered == old(delivered) + ite(old(c.connected), 0, 1) + $i && 0 <= $i && $i <= len(n.Update)
 //@   invariant 1: c.connected && connectedSent == old(connectedSent) + ite(old(c.connected), 0, 1) && delivered == old(delivered) + ite(old(c.connected), 0, 1) + len(n.Update) + $i && 0 <= $i && $i <= len(n.Delete)
 //@   assert at call field Client.handler#0: [connected-comes-first C18] delivered == old(delivered) && !c.connected
+//@   assert at call noti#0: [update-stamped-with-the-notification-time C01] tinst(arg2) == n.Timestamp && arg1 == u.Path && arg3 == u
+//@   assert at call noti#1: [delete-stamped-with-the-notification-time C01] tinst(arg2) == n.Timestamp && arg1 == d && arg3 == nil
+//@   assert at call fmt.Errorf#3: [only-an-update-without-a-path-is-refused C01] u.Path == nil
+//@   ensures [sync-is-delivered C18 C01] isa(msg.(*gpb.SubscribeResponse)) && isa(msg.(*gpb.SubscribeResponse).Response.(*gpb.SubscribeResponse_SyncResponse)) ==>
+//@     delivered == old(delivered) + ite(old(c.connected), 0, 1) + 1 && (res0 == client.ErrStopReading <==> c.query.Type == client.Poll || c.query.Type == client.Once)
+//@     && (res0 == nil <==> !(c.query.Type == client.Poll || c.query.Type == client.Once))
+//@   ensures [not-a-response-refused C12] !isa(msg.(*gpb.SubscribeResponse)) ==> res0 != nil && res0 != client.ErrStopReading
 //@   ensures [connected-exactly-once-per-stream C18] c.connected && connectedSent == old(connectedSent) + ite(old(c.connected), 0, 1)
 //@   ensures [nothing-dropped C01] res0 == nil && isa(msg.(*gpb.SubscribeResponse)) && isa(msg.(*gpb.SubscribeResponse).Response.(*gpb.SubscribeResponse_Update)) ==>
 //@     delivered == old(delivered) + ite(old(c.connected), 0, 1) + len(msg.(*gpb.SubscribeResponse).Response.(*gpb.SubscribeResponse_Update).Update.Update)
